@@ -41,9 +41,11 @@ LEVEL_TEXT = ('Kernel-checked: from a consistent state, any interleaving of edit
               'lookup index. The recording of dependencies by Record/RecordSet attribute access is checked on the '
               'implementation for every read (monitor), not proved.')
 LEVEL_NOTE = ('Strength: kernel. Trusted: Coq kernel; hand-written model tied by exported-graph cases and the monitor. '
-              'Not proved: executable refinement of schema edits (ALL_ROWS) and of one evaluation step to the kernel '
-              'records (stated abstractly as edit_ok/eval_ok); the scheduler is C06/C18.')
-DISABLED = True
+              'The executable model is shown to refine the kernel for data edits, schema edits (ALL_ROWS with '
+              'clear_dependencies) and one evaluation step with eagerly covered reads; NOT proved (kept as the statement '
+              'C05_eval_step_refines_statement): the evaluation step with lazily tracked lookup reads and the '
+              'post-invalidation of lookup-map cells. The scheduler is C06/C18. Two known findings: programs cyclic '
+              'through a lookup; RecordSet.<RefList column> records a dependency with the wrong relation.')
 PROOF_TIMEOUT = 900
 
 
